@@ -44,6 +44,8 @@ pub struct Faults {
     pub c2s_delay: u32,
     /// a datagram that raises a readable edge and is discarded at receive time (bad checksum)
     pub c2s_phantom: u32,
+    /// a datagram that arrives cut short (fragment loss with a lenient middlebox, MTU black hole)
+    pub c2s_truncate: u32,
     /// server -> client path
     pub s2c_drop: u32,
     pub s2c_dup: u32,
@@ -935,6 +937,11 @@ impl World {
             lat += extra;
         }
         let is_phantom = self.fault("c2s_phantom", phantom);
+        let mut bytes = bytes;
+        if !sut && !bytes.is_empty() && self.fault("c2s_truncate", f.c2s_truncate) {
+            let keep = self.choose(bytes.len() as u32) as usize;
+            bytes = Rc::new(bytes[..keep].to_vec());
+        }
         let d = Dgram { id, src, dst, data: bytes, phantom: is_phantom };
         let at = self.now + lat;
         self.ev_seq += 1;
